@@ -22,6 +22,7 @@ REGISTRY = {
     "C06": ("harness.checks.dat", "run"),
     "C09": ("harness.checks.dat", "run"),
     "C13": ("harness.checks.matrix", "run"),
+    "C05": ("harness.checks.warm", "run"),
 }
 
 
